@@ -247,6 +247,10 @@ def check_pair_handler(case):
     from jellyfysh.event_handler.two_composite_object_summed_bounding_potential_event_handler import \
         TwoCompositeObjectSummedBoundingPotentialEventHandler
     _, scheme, nl, geo = case
+    # geometries 3..5 are geometries 0..2 moved to a corner of the box: the two molecules (and the leaves of one
+    # molecule) then sit on different sides of the periodic faces, so every pair term of the table needs the nearest
+    # image -- for the active leaf *and* for its non-active partners (seed C01-k)
+    wrap, geo = geo >= 3, geo % 3
     L = 1.0
     init_setting((L, L, L), cubic=True, roots=2, per_root=nl)
     pot = InversePowerPotential(power=1.0, prefactor=1.0)
@@ -258,9 +262,9 @@ def check_pair_handler(case):
               2: [(0.0, 0.0, 0.0), (-0.05, 0.03, 0.01), (0.02, 0.04, -0.04), (0.01, 0.05, 0.02)]}[geo][:nl]
     charges = [[1.0, -1.0], [0.41, -0.82, 0.41], [1.0, -0.5, 0.7, -1.2]][nl - 2]
     offs = [(0.22, 0.05, -0.08), (-0.18, 0.12, 0.1), (0.12, -0.2, 0.15)][geo]
-    ca = (0.4, 0.4, 0.4)
-    pa = [[ca[d] + sh[d] for d in range(3)] for sh in shapes]
-    pb = [[ca[d] + offs[d] + sh[(d + 1) % 3] for d in range(3)] for sh in shapes]
+    ca = (0.93, 0.96, 0.05) if wrap else (0.4, 0.4, 0.4)
+    pa = [[(ca[d] + sh[d]) % L for d in range(3)] for sh in shapes]
+    pb = [[(ca[d] + offs[d] + sh[(d + 1) % 3]) % L for d in range(3)] for sh in shapes]
     direction = geo % 3
     vel = [0.0, 0.0, 0.0]
     vel[direction] = 1.0
@@ -268,7 +272,7 @@ def check_pair_handler(case):
 
     def pair(i, j):
         """rate of energy change of the pair (i, j) when i moves along vel: -dU/ds_d with s = r_j - r_i"""
-        s = [units[j][1][d] - units[i][1][d] for d in range(3)]
+        s = [(units[j][1][d] - units[i][1][d] + 0.5 * L) % L - 0.5 * L for d in range(3)]  # nearest image
         r = math.sqrt(sum(x * x for x in s))
         return units[i][2] * units[j][2] * s[direction] / r ** 3
     table = {}
@@ -300,7 +304,7 @@ def check_pair_handler(case):
         try:
             meas = _measure(pick)
         except Exception as e:
-            fails.append(("exception", "%s %d-atom molecules geometry %d active %r raised %r" % (scheme, nl, geo, ident, e)))
+            fails.append(("exception", "%s %d-atom molecules geometry %d active %r raised %r" % (scheme, nl, geo + 3 * wrap, ident, e)))
             continue
         nexec += 129
         for k, p in meas.items():
@@ -310,7 +314,7 @@ def check_pair_handler(case):
             elif k not in table or table[k] >= 0 and p > 1e-9:
                 fails.append(("selects-nonnegative", "%s %d-atom molecules geometry %d active %r: unit %r with factor "
                               "derivative %r is selected on a set of draws of measure %.3g"
-                              % (scheme, nl, geo, ident, k, table.get(k), p)))
+                              % (scheme, nl, geo + 3 * wrap, ident, k, table.get(k), p)))
             else:
                 flow[k] += qa * p
     for k, v in table.items():
@@ -318,7 +322,7 @@ def check_pair_handler(case):
         if abs(flow[k] - want) > 1e-6 * total:
             fails.append(("handler-flow-balance", "%s with two %d-atom molecules (geometry %d, direction %d): factor "
                           "derivatives %r; flow into unit %r is %.9g, its negative derivative is %.9g"
-                          % (scheme, nl, geo, direction, {str(a): round(b, 6) for a, b in table.items()}, k, flow[k],
+                          % (scheme, nl, geo + 3 * wrap, direction, {str(a): round(b, 6) for a, b in table.items()}, k, flow[k],
                              want)))
             break
     setting.reset()
@@ -440,7 +444,7 @@ def cases(ctx):
             yield ("ids", s, tab)
     for s in SCHEMES:
         for nl in (2, 3, 4):
-            for geo in (0, 1, 2):
+            for geo in (0, 1, 2, 3, 4, 5):
                 yield ("pairhandler", s, nl, geo)
         for geo in (0, 1, 2):
             yield ("bendhandler", s, geo)
